@@ -111,6 +111,14 @@ func zzBuildState(o zzStateOpts) *zzState {
 			tok, tid = st.idB, 2
 		}
 		ste := zzSteNamed(n, st.chain, tok, tid, o.zeroFees)
+		// invariant of recorded transfers: they were converted from voucher amounts whose sum fitted an sdk.Int
+		d := dA
+		if tid == 2 {
+			d = dB
+		}
+		back := new(big.Int).Add(zzConv(d, 18, ste.Token.Amount.BigInt()), zzConv(d, 18, ste.Fee.Amount.BigInt()))
+		back.Add(back, zzConv(d, 18, ste.ValCommission.Amount.BigInt()))
+		vrt.Assume(back.Cmp(zzPow255) < 0)
 		for _, x := range all {
 			vrt.Assume(x.Id != ste.Id)
 		}
